@@ -125,6 +125,10 @@ Definition sl_append_in (s : gslice) (p : bytes) : option gslice :=
 Inductive bres (R S : Type) : Type := BOk (r : R) (st : S) | BRange (st : S) | BPanic (p : bytes) (st : S).
 Arguments BOk {R S} r st. Arguments BRange {R S} st. Arguments BPanic {R S} p st.
 
+(* l[a:] on a slice whose capacity does not matter (a list): panics outside 0..len(l) *)
+Definition list_from {A : Type} (l : list A) (a : Z) : option (list A) :=
+  if (a <? 0) || (Z.of_nat (List.length l) <? a) then None else Some (skipn (Z.to_nat a) l).
+
 (* a loop inside a function that ends in a bres: a round of the loop goes on with a new loop state (LbNext),
    leaves the loop (LbBreak: the condition is false, or break), or ENDS THE FUNCTION (LbEnd: a return, a range
    panic, panic(v), the panic of a callee - with the state they leave).  None = the declared fuel did not
